@@ -123,6 +123,9 @@ func c15() {
 		{kind: "prctl-fails-EPERM", policy: str(validYAML), pre: []string{"strace", "-f", "-o", "/dev/null", "-e", "trace=prctl", "-e", "inject=prctl:error=EPERM"}, args: std()},
 		{kind: "prctl-fails-EINVAL-no-new-privs-flag", policy: str(validYAML), pre: []string{"strace", "-f", "-o", "/dev/null", "-e", "trace=prctl", "-e", "inject=prctl:error=EINVAL"}, args: std("-no-new-privs=true")},
 	}
+	for _, errno := range []string{"ENOMEM", "EFAULT", "ESRCH", "EBUSY", "EPERM", "EAGAIN", "EINTR", "E2BIG"} {
+		faults = append(faults, fault{kind: "kernel-refuses-seccomp-" + errno, policy: str(validYAML), pre: []string{"strace", "-f", "-o", "/dev/null", "-e", "trace=seccomp", "-e", "inject=seccomp:error=" + errno}, args: std()})
+	}
 	// the same defects far into a large file: comment lines are legal YAML, so a
 	// policy file can have any size; what follows the padding must still count
 	pad := func(n int) string {
